@@ -294,6 +294,77 @@ def watson_instance(D, N, lead=()):
                     make, call, ensures, patches=patches, timeout=30.0)
 
 
+def bingham_instance(D, N, lead=()):
+    """complex Bingham: log_pdf(y) = Re(y^H V diag(lam) V^H y) - log c(lam),  c(lam) = 2 pi^D sum_j exp(lam_j) / prod_{i != j}(lam_j - lam_i)
+    for pairwise distinct eigenvalues (gap above the de-duplication eps), in any stored order; the stored parameters are the
+    caller's arrays (frame: read-only)."""
+    from pb_bss.distribution import complex_bingham as m
+    lead = tuple(lead)
+    GAP = 1e-6
+
+    def make(B):
+        sp = B.sp
+        lam = B.real('lam', lead + (D,), dist=(-5.0, 0.0))
+        l_ = cells(lam)
+        for li in np.ndindex(*lead):
+            for a in range(D):
+                for b in range(a + 1, D):
+                    B.require('eigenvalues-distinct', sp.gt((l_[li + (a,)] - l_[li + (b,)]) * (l_[li + (a,)] - l_[li + (b,)]), GAP * GAP))
+        return {'V': B.cplx('V', lead + (D, D)), 'lam': lam, 'y': B.cplx('y', lead + (N, D))}
+
+    def call(inp):
+        model = m.ComplexBingham(covariance_eigenvectors=inp['V'], covariance_eigenvalues=inp['lam'])
+        first = model.log_pdf(inp['y'])
+        second = model.log_pdf(inp['y'])
+        return {'log_pdf': first, 'again': second}
+
+    def ensures(sp, inp, out):
+        ok = shape_of(out['log_pdf']) == lead + (N,) and shape_of(out['again']) == lead + (N,)
+        yield 'shape', sp._f(ok)
+        if not ok:
+            return
+        g_, g2, V, lam, y = cells(out['log_pdf']), cells(out['again']), cells(inp['V']), cells(inp['lam']), cells(inp['y'])
+        for li in np.ndindex(*lead):
+            l_ = [lam[li + (e,)] for e in range(D)]
+            c_ = None
+            for j in range(D):
+                den = None
+                for i in range(D):
+                    if i != j:
+                        den = (l_[j] - l_[i]) if den is None else den * (l_[j] - l_[i])
+                term = sp.exp(l_[j]) / den
+                c_ = term if c_ is None else c_ + term
+            c_ = c_ * (2 * math.pi ** D)
+            for n in range(N):
+                quad = sp.sum(l_[e] * sp.abs2(sp.sum(sp.conj(V[li + (d, e)]) * y[li + (n, d)] for d in range(D))) for e in range(D))
+                yield 'density[%s,%d]' % (li, n), sp.eq(g_[li + (n,)], quad - sp.log(c_))
+                yield 'second-evaluation-identical[%s,%d]' % (li, n), sp.eq(g2[li + (n,)], g_[li + (n,)])
+
+    def hints(sp, inp, out):
+        # D >= 3: positivity of the normaliser is the positivity of a divided difference of exp (Hermite-Genocchi:
+        # exp[l_1..l_D] = integral of exp over the simplex > 0) -- not derivable from ground monotonicity instances; assumed
+        if D < 3 or not sp.symbolic:
+            return []
+        S.ctx().assumptions_used.add('divided differences of exp are positive (Hermite-Genocchi formula): Bingham normaliser > 0 for D >= 3')
+        lam = cells(inp['lam'])
+        res = []
+        for li in np.ndindex(*lead):
+            l_ = [lam[li + (e,)] for e in range(D)]
+            c_ = None
+            for j in range(D):
+                den = None
+                for i in range(D):
+                    if i != j:
+                        den = (l_[j] - l_[i]) if den is None else den * (l_[j] - l_[i])
+                term = sp.exp(l_[j]) / den
+                c_ = term if c_ is None else c_ + term
+            res.append(sp.gt(c_, 0.0))
+        return res
+
+    return Instance('C07', D_ + 'complex_bingham:ComplexBingham.log_pdf', 'D%dN%d-lead%s' % (D, N, 'x'.join(map(str, lead)) or '0'),
+                    make, call, ensures, hints=hints, timeout=30.0, max_paths=50)
+
+
 # ----------------------------------------------------------------------------- bounded: independent oracles
 def bounded_scipy_instance():
     """Gaussians against scipy.stats.multivariate_normal, vMF against scipy.stats.vonmises_fisher,
@@ -303,7 +374,7 @@ def bounded_scipy_instance():
     from pb_bss.distribution import complex_circular_symmetric_gaussian as cg, complex_angular_central_gaussian as ca
 
     def make(B):
-        kind = B.choose('kind', ['full', 'diagonal', 'spherical', 'vmf', 'ccsg', 'watson-int', 'bingham-form', 'cacg-int'])
+        kind = B.choose('kind', ['full', 'diagonal', 'spherical', 'vmf', 'ccsg', 'watson-int', 'bingham-form', 'cacg-int', 'bingham-logpdf', 'bingham-logpdf'])
         D = B.choose('D', [1, 2, 3, 5, 8] if kind in ('full', 'diagonal', 'spherical') else [2, 3, 4, 6])
         lead = B.choose('lead', [(), (2,), (3, 2)])
         seed = B.choose('seed', list(range(1000)))
@@ -373,6 +444,30 @@ def bounded_scipy_instance():
             dens = np.exp(model.log_pdf(z))
             area = 2 * np.pi ** 2       # 2 pi^D / (D-1)!  for D = 2
             res.update(got=np.asarray([np.sum(dens * np.cos(t) * np.sin(t)) * (np.pi / 2 / 4000) * (2 * np.pi) ** 2]), ref=np.asarray([area]))
+        elif kind == 'bingham-logpdf':
+            # stored parameters: random unitary eigenvectors, distinct eigenvalues in arbitrary (unsorted) order, leading axes;
+            # the same object is evaluated three times (the density is a function of the stored parameters only)
+            Dd = min(D, 4)
+            A = rng.normal(size=lead + (Dd, Dd)) + 1j * rng.normal(size=lead + (Dd, Dd))
+            V = np.linalg.qr(A)[0]
+            lam = rng.uniform(-6.0, 0.0, size=lead + (Dd,))
+            for li in np.ndindex(*lead):
+                while np.min(np.abs(np.diff(np.sort(lam[li])))) < 5e-2:
+                    lam[li] = rng.uniform(-6.0, 0.0, size=Dd)
+            y = rng.normal(size=lead + (N, Dd)) + 1j * rng.normal(size=lead + (N, Dd))
+            y /= np.linalg.norm(y, axis=-1, keepdims=True)
+            lam0, V0 = lam.copy(), V.copy()
+            model = cb.ComplexBingham(covariance_eigenvectors=V, covariance_eigenvalues=lam)
+            gots = [np.array(model.log_pdf(y)) for _ in range(3)]
+            ref = np.empty(lead + (N,))
+            for li in np.ndindex(*lead):
+                l_ = lam0[li]
+                closed = 2 * np.pi ** Dd * sum(np.exp(l_[j]) / np.prod([l_[j] - l_[i] for i in range(Dd) if i != j]) for j in range(Dd))
+                C_ = (V0[li] * l_) @ V0[li].conj().T
+                ref[li] = np.einsum('td,de,te->t', y[li].conj(), C_, y[li]).real - np.log(closed)
+            res.update(got=np.stack(gots), ref=np.stack([ref] * 3),
+                       frame_ok=bool(np.array_equal(np.asarray(model.covariance_eigenvalues), lam0)
+                                     and np.array_equal(np.asarray(model.covariance_eigenvectors), V0)))
         else:   # bingham-form: closed form for distinct eigenvalues
             Dd = min(D, 4)
             lam = np.sort(rng.uniform(-3.0, 0.0, size=Dd))
@@ -384,10 +479,12 @@ def bounded_scipy_instance():
         return res
 
     def ensures(sp, inp, out):
-        tol = 1e-3 if out['kind'] in ('watson-int', 'cacg-int') else (1e-6 if out['kind'] == 'bingham-form' else 1e-8)
+        tol = 1e-3 if out['kind'] in ('watson-int', 'cacg-int') else (1e-6 if out['kind'].startswith('bingham') else 1e-8)
         got, ref = np.asarray(out['got'], dtype=float), np.asarray(out['ref'], dtype=float)
         yield 'shape', got.shape == ref.shape
         yield 'matches-independent-oracle[%s]' % out['kind'], bool(np.allclose(got, ref, rtol=tol, atol=tol))
+        if 'frame_ok' in out:
+            yield 'stored-parameters-unchanged-by-log_pdf', out['frame_ok']
 
     return Instance('C07', D_ + '*:log_pdf', 'bounded-independent-oracles', make, call, ensures, mode='bounded', bounded_n=150, frame=False)
 
@@ -410,6 +507,9 @@ def instances(tier):
     out.append(vmf_instance(3, 1, (2,)))
     out.append(watson_instance(2, 2))
     out.append(watson_instance(3, 1, (2,)))
+    out.append(bingham_instance(2, 1))
+    out.append(bingham_instance(2, 2, (2,)))
+    out.append(bingham_instance(3, 1))
     if th:
         out.append(ccsg_instance(3, 1))
         out.append(cacg_instance(3, 1))
